@@ -1,0 +1,40 @@
+//go:build verif
+
+// Contracts for /verif (build tag "verif"): //@ comment blocks and pure ghost functions only.
+package ssa
+
+import "github.com/tetratelabs/wazero/internal/engine/wazevo/wazevoapi"
+
+var _ = wazevoapi.ExitCodeMemoryOutOfBounds
+
+// Ghost registers: the builder remembers the most recently inserted instruction of a few kinds, which is
+// enough to state what a memory bounds check must look like when it is inserted (C02, "emit-sem lite").
+func gr(n string) int { return verif_ghost_int(n) }
+
+func isOOBCheck(i *Instruction) bool {
+	return i.opcode == OpcodeExitIfTrueWithCode && i.u1 == uint64(wazevoapi.ExitCodeMemoryOutOfBounds)
+}
+
+// oobShape: the condition of the check is the latest comparison, which is
+//   memLen <u (zext32->64(address) + constant)
+// built from the latest zero-extension, constant and addition.
+func oobShape(i *Instruction) bool {
+	return int(i.v2) == gr("icmpRet") && gr("icmpC") == int(IntegerCmpCondUnsignedLessThan) &&
+		gr("icmpY") == gr("iaddRet") && gr("iaddX") == gr("uextRet") && gr("iaddY") == gr("iconstRet") &&
+		gr("uextFT") == 32<<8|64
+}
+
+//@ prop C02
+//@ iface (b Builder) AllocateInstruction() *Instruction
+//@   ensures r0 != nil && verif_fresh(r0)
+//@   modifies nothing
+
+//@ iface (b Builder) InsertInstruction(raw *Instruction)
+//@   requires raw != nil
+//@   requires[oob-check-shape] isOOBCheck(raw) ==> oobShape(raw)
+//@   ensures[uext] (raw.opcode == OpcodeUExtend ==> gr("uextArg") == int(raw.v) && gr("uextRet") == int(raw.rValue) && gr("uextFT") == int(raw.u1)) && (raw.opcode != OpcodeUExtend ==> gr("uextArg") == old(gr("uextArg")) && gr("uextRet") == old(gr("uextRet")) && gr("uextFT") == old(gr("uextFT")))
+//@   ensures[iconst] (raw.opcode == OpcodeIconst ==> gr("iconstVal") == int(raw.u1) && gr("iconstRet") == int(raw.rValue)) && (raw.opcode != OpcodeIconst ==> gr("iconstVal") == old(gr("iconstVal")) && gr("iconstRet") == old(gr("iconstRet")))
+//@   ensures[iadd] (raw.opcode == OpcodeIadd ==> gr("iaddX") == int(raw.v) && gr("iaddY") == int(raw.v2) && gr("iaddRet") == int(raw.rValue)) && (raw.opcode != OpcodeIadd ==> gr("iaddX") == old(gr("iaddX")) && gr("iaddY") == old(gr("iaddY")) && gr("iaddRet") == old(gr("iaddRet")))
+//@   ensures[icmp] (raw.opcode == OpcodeIcmp ==> gr("icmpX") == int(raw.v) && gr("icmpY") == int(raw.v2) && gr("icmpC") == int(raw.u1) && gr("icmpRet") == int(raw.rValue)) && (raw.opcode != OpcodeIcmp ==> gr("icmpX") == old(gr("icmpX")) && gr("icmpY") == old(gr("icmpY")) && gr("icmpC") == old(gr("icmpC")) && gr("icmpRet") == old(gr("icmpRet")))
+//@   ensures[oob] (isOOBCheck(raw) ==> gr("oobChecks") == old(gr("oobChecks")) + 1 && gr("oobArg") == old(gr("uextArg")) && gr("oobCeil") == old(gr("iconstVal")) && gr("oobLen") == old(gr("icmpX"))) && (!isOOBCheck(raw) ==> gr("oobChecks") == old(gr("oobChecks")) && gr("oobArg") == old(gr("oobArg")) && gr("oobCeil") == old(gr("oobCeil")) && gr("oobLen") == old(gr("oobLen")))
+//@   modifies raw.rValue, ghost("uextArg"), ghost("uextRet"), ghost("uextFT"), ghost("iconstVal"), ghost("iconstRet"), ghost("iaddX"), ghost("iaddY"), ghost("iaddRet"), ghost("icmpX"), ghost("icmpY"), ghost("icmpC"), ghost("icmpRet"), ghost("oobChecks"), ghost("oobArg"), ghost("oobCeil"), ghost("oobLen")
